@@ -866,14 +866,14 @@ func (serverEngine) Run(t *testing.T, batch string, tape *rt.Tape, runIdx uint64
 	}
 	rec.Sample = map[string]any{"script": script, "fault": fault, "stream_len": len(plan.stream()), "strategy": stratName, "steps": out.Steps,
 		"c2s": fmt.Sprintf("cap=%d readmax=%v", plan.C2S.Cap, plan.C2S.ReadMax), "close_at_end": plan.CloseAtEnd}
-	if out.BubblePanic != "" && !out.Deadlock {
-		rec.Outcome = "infra"
-		rec.Reason = "bubble panic: " + out.BubblePanic
-		return rec
-	}
 	if out.Budget {
 		rec.Outcome = "infra"
-		rec.Reason = "step budget exceeded"
+		rec.Reason = fmt.Sprintf("step budget exceeded (%d steps)", out.Steps)
+		return rec
+	}
+	if out.BubblePanic != "" && !out.Deadlock {
+		rec.Outcome = "infra"
+		rec.Reason = "bubble panic: " + trunc(out.BubblePanic, 3000)
 		return rec
 	}
 	rec.Violations = JudgeServer(plan, fault, obs, out)
